@@ -29,6 +29,8 @@ def make_table(rng, nmodels=None):
                 num += 1  # residue identities are unique within a chain (a file that repeats one is outside the property)
             het = rng.random() < .12
             resname = "HOH" if het else rng.choice(["G", "A", "C", "U", "DG", "PSU"])
+            if icode is not None and skeleton and skeleton[-1][0] == ch and not het and not skeleton[-1][4] and rng.random() < 0.5:
+                resname = skeleton[-1][3]  # an inserted residue of the same kind as the one it follows (G10, G10A)
             names = ["O"] if het else rng.sample(NT_ATOMS, rng.randint(3, 9))
             skeleton.append((ch, num, icode, resname, het, names))
     recs = []
@@ -171,6 +173,9 @@ def check_case(seed):
     errs = []
     null_icode = rng.choice(["?", "."])
     variants = [("pdb", emit.to_pdb(recs), ".pdb"), (f"cif[{null_icode}]", emit.to_cif(recs, null_icode=null_icode), ".cif")]
+    if seed % 3 == 0:
+        # label_seq_id numbered like auth_seq_id (files converted from PDB data): residues 10 and 10A share the label identifier
+        variants.append(("cif[label=auth]", emit.to_cif([dict(r, label_seq=r["resnum"]) for r in recs], null_icode=null_icode), ".cif"))
     for tag, text, suffix in variants:
         for m in [None] + model_ids:
             try:
